@@ -162,6 +162,14 @@ NOTES = {
     "C09-e": ("resize_rr shifts the EDNS offset when the record resized starts exactly at it (`>=` for `>`): OPT without options followed by a record", "first run: correspondence only, no failing input; C09 now also compares where the object places the EDNS data with where they are in its bytes - now caught with an input"),
     "C10-e": ("room for the new record computed from the length before decompression", "caught at once"),
     "C15-e": ("set_name through the table refuses when text length + default-zone length > 255, also for absolute names, which ignore the zone", "not run before the strengthening: facade walks now call set_name (action N) with relative / absolute, short / 200..253-byte names, with and without a default zone - caught"),
+    "C01-e": ("the two query checks merged into `ancount + nscount > 0` in u16: 65535 + 1 wraps (release) or panics (debug)", "MISSED at first; header counts at the edges of 16 bits (0, 1, 0x7fff, 0x8000, 0xfffe, 0xffff in every combination, queries and responses) added - now caught"),
+    "C06-e": ("dictionary comparison takes the label structure from the name looked up only: foo-bar.zone and foo.bar.zone share a pointer", "MISSED at first; added pairs of names of equal wire length whose label boundaries differ (a character - also one equal to the length byte - where the other has a length byte), both orders, owners and name-bearing data - now caught"),
+    "C11-e": ("same change as C09-e, seeded independently against C11", "caught at once (C11 compares the view after every deletion)"),
+    "C13-e": ("hostname parser treats any non-blank character after a 62-byte final label as one character too many: `(` directly after an SOA contact name", "MISSED at first; the opening parenthesis may now follow the contact name without white space, with final labels of 1 / 30 / 61 / 62 bytes - now caught"),
+    "C16-e": ("descriptions of 64+ characters are written to one process-wide spill buffer", "not run before the strengthening: the two longest descriptions the table can produce (second question, rename to a name starting with NUL) added to the failing calls of the schedules (seven kinds) - caught; also the ambient inventory (new static)"),
+    "C18-e": ("hop counter became a u8 tested only when a label is reached: ladders of 256+ pointers wrap it (release) or panic (debug)", "caught at once (runs of back-to-back pointers)"),
+    "C12-e": ("flags() masks the extended half down to DO: reserved extended flag bits of an OPT record vanish from the 32-bit word", "caught at once (OPT records carry arbitrary 16-bit extended flags)"),
+    "C17-e": ("compress/rename share a thread-local suffix table cleared lazily by a 16-bit epoch that wraps without wiping the slots: the 65535th call on a thread sees the entries of the first", "first run: only the regenerated inventory obligation broke (no-failing-input-found); added HL: f(x) on a fresh thread against f(x) after f(y) and n small calls, n around 2^8 and 2^16 - now caught with an input"),
     "C17-c": ("compress() output built in a thread-local scratch buffer that is not cleared above 64 KiB of capacity", "first run: only the regenerated inventory obligation broke; added small operations right after 33 .. 65 KB ones - now caught with an input"),
 }
 
